@@ -18,6 +18,7 @@ latest sid the server issued to transport T on namespace ns"):
   ['lose', T]                                 transport loss
   ['cclose', T]                               engine.io CLOSE from the client
   ['raw', T, frame]                           arbitrary frame (str/bytes)
+  ['stale', T]                                client stopped answering pings
   ['enter', SID, room, ns] ['leave', SID, room, ns] ['close_room', room, ns]
   ['sdisc', SID, ns]                          server.disconnect()
   ['emit', token, to, skip, ns, cb, data]     to/skip may contain SIDs
@@ -247,6 +248,9 @@ class Runner:
     def _collect(self, res):
         sent = {}
         for idx, t in self.T.items():
+            if t.alive and t.socket.closed:
+                # closed by engine.io itself (ping timeout found on send)
+                self.d._reap(t)
             new = t.drain()
             if new:
                 sent[idx] = new
@@ -277,6 +281,14 @@ class Runner:
         d = self.d
         res = {'op': op, '_ev0': len(self.events)}
         kind = op[0]
+        if kind in ('connect', 'event', 'event_partial', 'ack', 'cdisc',
+                    'lose', 'cclose', 'raw', 'raw_encoded') and \
+                op[1] in self.T and not self.T[op[1]].alive:
+            # engine.io does not deliver anything for a transport that has
+            # ended (its socket is gone from the server's table)
+            res['skipped'] = 'transport ended'
+            self._collect(res)
+            return res
         try:
             if kind == 'open':
                 self.T[op[1]] = d.open()
@@ -299,6 +311,12 @@ class Runner:
                 self.T[op[1]].client_close()
             elif kind == 'raw':
                 self.T[op[1]].feed(op[2])
+            elif kind == 'stale':
+                # the client stopped answering pings long ago: engine.io
+                # notices at the next send to this transport and closes it
+                # with reason "ping timeout" from inside that send
+                import time as _time
+                self.T[op[1]].socket.last_ping = _time.time() - 10 ** 6
             elif kind == 'burst':
                 self._burst(op[1])
             elif kind == 'raw_encoded':
@@ -625,6 +643,8 @@ def normalise(results, runner):
             e['ret'] = walk(r['ret'])
         if 'waited' in r:
             e['waited'] = r['waited']
+        if 'skipped' in r:
+            e['skipped'] = r['skipped']
         if 'exc' in r:
             e['exc'] = r['exc']
         if 'errors' in r:
